@@ -174,6 +174,7 @@ type exec struct {
 	bounds  map[string]int64
 	notes   map[string]string
 	clock   value
+	pcSet   map[string]bool
 	sampleModel map[string]string
 	sampleEvents []string
 	uuidCtr int
@@ -204,6 +205,13 @@ func (ex *exec) addPC(c *sym) {
 	if c.e == "true" {
 		return
 	}
+	if ex.pcSet == nil {
+		ex.pcSet = map[string]bool{}
+	}
+	if ex.pcSet[c.e] {
+		return
+	}
+	ex.pcSet[c.e] = true
 	ex.pc = append(ex.pc, c)
 	h := fnv.New64a()
 	var b [8]byte
@@ -238,6 +246,12 @@ func (ex *exec) sat(c *sym) string {
 	if c.e == "false" {
 		return "unsat"
 	}
+	if ex.pcSet[c.e] {
+		return "sat"
+	}
+	if ex.pcSet[mkNot(c).e] {
+		return "unsat"
+	}
 	key := fmt.Sprintf("%x|%d|%s", ex.pcHash, len(ex.pc), c.e)
 	if r, ok := queryCache.Load(key); ok {
 		return r.(string)
@@ -246,7 +260,16 @@ func (ex *exec) sat(c *sym) string {
 	s := ex.w.sol
 	s.push()
 	s.send("(assert " + c.e + ")")
+	tq := time.Now()
 	r := s.check()
+	if d := time.Since(tq); d > 2*time.Second && os.Getenv("GOSX_SLOW") != "" {
+		fmt.Fprintf(os.Stderr, "[slow %.1fs %s] pc=%d cond=%s\n", d.Seconds(), r, len(ex.pc), c.e)
+		if os.Getenv("GOSX_SLOW") == "2" {
+			for _, p := range ex.pc {
+				fmt.Fprintf(os.Stderr, "    %s\n", p.e)
+			}
+		}
+	}
 	s.pop()
 	if s.dead {
 		ex.w.restartSolver()
@@ -407,9 +430,15 @@ func (ex *exec) recordFailure(kind, oblig, msg string, negCond *sym) {
 			}
 		}
 		f.Events = evs
+	} else if r == "unsat" {
+		// the path itself is infeasible (it was kept after an inconclusive branch query)
+		s.pop()
+		panic(pathEnd{"infeasible", "path condition unsatisfiable"})
 	} else {
-		f.Events = append([]string{}, ex.events...)
-		f.Model = map[string]string{"_model": "unavailable (" + r + ")"}
+		s.pop()
+		ex.undisch++
+		ex.notes["inconclusive-failure"] = "a failing assertion could not be confirmed (solver: " + r + "); counted as undischarged"
+		return
 	}
 	s.pop()
 	f.Trail = append([]int{}, ex.trail[:ex.pos]...)
